@@ -28,7 +28,8 @@ def _plan(draw, max_rows):
     big = draw(st.integers(0, 11)) == 0
     if big:
         # > 16 rows, one key with few distinct values and no missing cell: where an unstable sort shows
-        n = draw(st.integers(17, 40)) if max_rows < 40 or draw(st.booleans()) else draw(st.sampled_from(gen.BIG_SIZES))
+        # sizes beyond any plausible "fast path above N rows" threshold too (both tiers)
+        n = draw(st.one_of(st.integers(17, 40), st.integers(17, 40), st.sampled_from(gen.BIG_SIZES), st.sampled_from(gen.HUGE_SIZES[:3])))
         nk = 1
     cols, keys = [], []
     for j in range(nk):
